@@ -5,7 +5,7 @@ From Verif Require Import Base.Result Base.Str Base.Sexp Base.PyDict Base.Float
   Model.Tokenizer Model.Types Model.Domain Model.NumExpr Model.Problem Model.ProblemObs
   Spec.Pddl Spec.Grammar Spec.Problem
   Proofs.C05_Lemmas Proofs.C05_Objects Proofs.C05_Items Proofs.C05_Goal Proofs.C05_Parse Proofs.C05_Faithful
-  Proofs.C05_Examples.
+  Proofs.C05_Repeats Proofs.C05_Examples.
 Import ListNotations.
 Open Scope string_scope.
 Open Scope list_scope.
@@ -140,6 +140,19 @@ Section Theorems.
     - rewrite H in Hp. injection Hp as <-. apply built_faithful; assumption.
     - destruct H as [k H]. rewrite H in Hp. discriminate.
   Qed.
+
+  (* ... also with repeated arguments, when every fluent is written the way the library prints it (repeated names
+     first) and assignments of one function with the same distinct arguments are the same fluent *)
+  Lemma C05_faithful_safe_lemma e sp pb :
+    read_problem num e = Some sp -> safe_repeats sp = true ->
+    parse_problem cfg_fixed num dom e = Ok pb ->
+    pdump_equiv (dump_problem pb) (spec_dump num sp) = true.
+  Proof.
+    intros Hr Hs Hp. pose proof (parse_problem_spec num dom Hdom Hnum e sp Hr) as H.
+    destruct (wf_code num dom sp) eqn:Ew; simpl in H.
+    - rewrite H in Hp. injection Hp as <-. apply built_faithful_safe; assumption.
+    - destruct H as [k H]. rewrite H in Hp. discriminate.
+  Qed.
 End Theorems.
 
 (* ---------------------------------------------------------------------------------------------------------- *)
@@ -175,6 +188,21 @@ Example C05_nonvacuous :
              List.length (sp_objects sp) = 4 /\ List.length (sp_facts sp) = 4 /\ List.length (sp_fluents sp) = 3 /\
              List.length (sp_goal sp) = 1 /\ List.length (sp_goal_num sp) = 2.
 Proof. eexists. split; [vm_compute; reflexivity|]. vm_compute. repeat split; reflexivity. Qed.
+
+(* repeated fluent arguments in the form the library can represent: safe, and parsed faithfully *)
+Definition repeats_problem : sexp := tok
+  "(define (problem pr) (:domain dom) (:objects o0 o1 - t1 o2 - t2) (:init (= (f2 o0 o0) 2) (= (f2 o0 o1) 1)
+     (= (k3 o1 o1 o2) 1) (= (f2 o1 o1) 3.5) (= (f2 o0 o0) 1)) (:goal (and)))".
+Example C05_safe_repeats_example :
+  exists sp pb, read_problem ex_num repeats_problem = Some sp /\ safe_repeats sp = true /\ no_repeats sp = false /\
+    parse_problem cfg_fixed ex_num ex_dom repeats_problem = Ok pb /\
+    pd_fluents (dump_problem pb) =
+      [(("f2", ["o0"; "o0"]), 1%float); (("f2", ["o0"; "o1"]), 1%float); (("k3", ["o1"; "o1"; "o2"]), 1%float);
+       (("f2", ["o1"; "o1"]), 3.5%float)].
+Proof.
+  eexists. eexists. split; [vm_compute; reflexivity|]. split; [vm_compute; reflexivity|]. split; [vm_compute; reflexivity|].
+  split; vm_compute; reflexivity.
+Qed.
 
 (* single-point corruptions of it are ill-formed, hence rejected by C05_rejects *)
 Definition corrupt (old new : string) : sexp := sexp_map (fun s => if String.eqb s old then new else s) ex_problem.
